@@ -36,6 +36,10 @@ def imp? : SX → Option (Option Imp)
     match optStr? f, n.str?, optStr? a with
     | some f, some n, some a => some (some { from_ := f, name := n, alias := a })
     | _, _, _ => none
+  | .list [f, n, a, r] =>
+    match optStr? f, n.str?, optStr? a, optStr? r with
+    | some f, some n, some a, some r => some (some { from_ := f, name := n, alias := a, refPath := r })
+    | _, _, _, _ => none
   | _ => none
 
 def ref? : SX → Option (Option Ref)
